@@ -46,7 +46,7 @@ class NoShift(Constructor):
 class ShiftLsl(Constructor):
     """Logical shift left n bits"""
 
-    n = Operand("n", int)
+    n = Operand("n", int, signed=False)
     syntax = Syntax([",", " ", "lsl", " ", n])
     patterns = {"shift_typ": 0, "shift_imm": n}
 
@@ -854,6 +854,10 @@ class McrBase(ArmInstruction):
     """Mov arm register to coprocessor register"""
 
     def encode(self):
+        # The opcodes are 3 bit unsigned numbers
+        for opc in (self.opc1, self.opc2):
+            if opc not in range(0, 8):
+                raise ValueError(f"Cannot encode opcode {opc} [0,7]")
         tokens = self.get_tokens()
         tokens[0][0:4] = self.crm.num
         tokens[0][4] = 1
